@@ -139,6 +139,12 @@ impl<'a> Gen<'a> {
             self.feat("bytes-value-not-utf8");
             return Value::Bytes(vec![0xff, 0xfe, 0x00]);
         }
+        if !self.hostile && self.rng.chance(1, 25) {
+            // a long protected value (a private key, a long note): longer than any small buffer a writer might use
+            let n = *self.rng.pick(&[769usize, 1000, 3000]);
+            let s: String = (0..n).map(|i| (b'a' + ((i * 7 + n) % 26) as u8) as char).collect();
+            return Value::Protected(secstr::SecStr::new(s.into_bytes()));
+        }
         match self.rng.below(8) {
             0 | 1 | 2 => Value::Protected(secstr::SecStr::new(self.text().into_bytes())),
             _ => Value::Unprotected(self.text()),
@@ -303,6 +309,10 @@ impl<'a> Gen<'a> {
         m.settings_changed = self.opt_time();
         for i in 0..self.rng.below(3) {
             let mut content = self.rng.bytes_range(1, 60);
+            if !self.hostile && self.rng.chance(1, 8) {
+                // content that is itself a gzip stream (someone attached a .gz file); whether it is stored compressed is a separate flag
+                content = crate::kdbx::gzip(&self.rng.bytes_range(1, 40));
+            }
             if !self.hostile && self.rng.chance(1, 40) {
                 // very compressible and large: expands far more than 100:1 when read back
                 content = vec![self.rng.next() as u8; 200_000 + self.rng.below(1000) as usize];
@@ -328,8 +338,8 @@ impl<'a> Gen<'a> {
             inner_cipher_config: self.rng.pick(&[InnerCipherConfig::Plain, InnerCipherConfig::Salsa20, InnerCipherConfig::ChaCha20]).clone(),
             kdf_config: match self.rng.below(3) {
                 0 => KdfConfig::Aes { rounds: self.rng.range(0, 10) },
-                1 => KdfConfig::Argon2 { iterations: self.rng.range(1, 2), memory: 1024 * self.rng.range(16, 64), parallelism: self.rng.range(1, 2) as u32, version: *self.rng.pick(&[argon2::Version::Version10, argon2::Version::Version13]) },
-                _ => KdfConfig::Argon2id { iterations: self.rng.range(1, 2), memory: 1024 * self.rng.range(16, 64), parallelism: self.rng.range(1, 2) as u32, version: *self.rng.pick(&[argon2::Version::Version10, argon2::Version::Version13]) },
+                1 => KdfConfig::Argon2 { iterations: self.rng.range(1, 2), memory: 1024 * self.rng.range(16, 64) + if self.rng.chance(1, 2) { self.rng.below(1024) } else { 0 }, parallelism: self.rng.range(1, 2) as u32, version: *self.rng.pick(&[argon2::Version::Version10, argon2::Version::Version13]) },
+                _ => KdfConfig::Argon2id { iterations: self.rng.range(1, 2), memory: 1024 * self.rng.range(16, 64) + if self.rng.chance(1, 2) { self.rng.below(1024) } else { 0 }, parallelism: self.rng.range(1, 2) as u32, version: *self.rng.pick(&[argon2::Version::Version10, argon2::Version::Version13]) },
             },
         }
     }
